@@ -28,10 +28,13 @@ def run(db, rep, tier):
     rep.rule("R1-integrity", "a decrypted frame is only produced / reported after the ICV or MIC comparison succeeded", 5)
     rep.rule("R2-bounds", "every raw access in the decryption code stays inside the frame body, key buffers and scratch blocks", 60)
     rep.rule("R3-both-pairs", "WPA2 keys are looked up by the source pair and then by the destination pair", 1)
+    rep.rule("R4-handshake-step", "a handshake message is appended only when it is the next one; a retransmission of the last stored one changes nothing", 1)
     r1(db, rep)
     r2(db, rep)
     r3(db, rep)
-    rep.explanation = ("Decides two clauses of C09: 'frames whose integrity check fails are never reported as decrypted' "
+    r4(db, rep)
+    rep.explanation = ("Also decides the step table of RSNHandshakeCapturer::do_insert (R4: append iff next expected, keep state on a "
+                       "retransmission of the last stored message). Decides two clauses of C09: 'frames whose integrity check fails are never reported as decrypted' "
                        "(guard dominance on every non-null return) and 'decrypting truncated/corrupted/hostile protected "
                        "frames is memory-safe' for every access whose offset is linear (the CCMP per-block offsets depend "
                        "on a division and are listed as undecided). Cipher correctness and key derivation are value-level "
@@ -190,3 +193,71 @@ def r3(db, rep):
         rep.violation("R3-both-pairs", "WPA2Decrypter::decrypt", facts.loc(f),
                       "keys are looked up by %s only: frames in the other direction of a known association are never decrypted"
                       % ("the source pair" if src else "the destination pair" if dst else "neither pair"))
+
+
+def r4(db, rep):
+    """decision table of do_insert over (stored messages s, expected index e): values are only compared"""
+    from vlib import ieval
+    fs = db.fns_named("Tins::RSNHandshakeCapturer::do_insert")
+    if not fs:
+        rep.analysis_broken("RSNHandshakeCapturer::do_insert vanished")
+        return
+    f = fs[0]
+    key = "do_insert:step-table"
+    ev = [p for p in f["params"] if p["name"] == "expected"]
+    if not ev:
+        rep.analysis_broken("do_insert: parameter `expected` not found")
+        return
+    evar = ev[0]["var"]
+    # the chain under `iter != end`
+    outer = [n for n in f["body"].get("c", []) if n["k"] == "IfStmt"]
+    if not outer:
+        rep.analysis_broken("do_insert: lookup guard not found")
+        return
+    inner_root = [x for x in outer[0]["c"] if x is not None][1]
+
+    def effects(stmt, env, tf):
+        """walk if/else chains concretely; return set of effects"""
+        out = set()
+        if stmt is None:
+            return out
+        k = stmt["k"]
+        if k == "CompoundStmt":
+            for x in stmt.get("c", []):
+                out |= effects(x, env, tf)
+            return out
+        if k == "IfStmt":
+            real = [x for x in stmt["c"] if x is not None]
+            c = ieval.ev(f, real[0], dict(env, __termfn__=tf), {})
+            return effects(real[1] if c else (real[2] if len(real) > 2 else None), env, tf)
+        for x in facts.walk(stmt):
+            if x["k"] == "CXXMemberCallExpr" and x.get("cname") in ("push_back", "clear", "erase", "assign", "pop_back"):
+                out.add(x["cname"])
+        return out
+    bad = None
+    try:
+        for e in range(0, 4):
+            for s in range(0, 6):
+                def tf(x, s=s):
+                    if x["k"] == "CXXMemberCallExpr" and x.get("cname") == "size":
+                        return s
+                    return None
+                eff = effects(inner_root, {evar: e}, tf)
+                if s == e and eff != {"push_back"}:
+                    bad = "with %d message(s) stored and message index %d arriving the capturer does %s instead of appending it" % (s, e, sorted(eff) or "nothing")
+                elif s == e + 1 and eff:
+                    bad = ("a retransmission of the message just stored (index %d, %d stored) makes the capturer %s the partial handshake: "
+                           "a duplicated message loses the handshake" % (e, s, "/".join(sorted(eff))))
+                elif s != e and "push_back" in eff:
+                    bad = "message index %d is appended although %d message(s) are stored" % (e, s)
+                if bad:
+                    break
+            if bad:
+                break
+    except ieval.Unknown as ex:
+        rep.undecided("R4-handshake-step", key, facts.loc(f), "conditions outside the evaluator: %s" % ex)
+        return
+    if bad:
+        rep.violation("R4-handshake-step", key, facts.loc(f), bad)
+    else:
+        rep.ok("R4-handshake-step", key, facts.loc(f), "append iff stored == expected; stored == expected + 1 (retransmission) leaves the state; table of 4 x 6 cells")
